@@ -96,44 +96,67 @@ func vhTopChoices() int {
 	return 2
 }
 
+const (
+	vhGrowAll = iota // every number may grow
+	vhGrowPV         // only the prevote numbers change
+	vhGrowPC         // only the precommit numbers change
+	vhGrowNone       // numbers unchanged (a header arrives)
+)
+
 // vhGenNums makes the numbers of a new view. prev != nil: a later view of the same
-// round (same available power, pointwise growth).
-func vhGenNums(prev *vhNums) *vhNums {
+// round (same available power, pointwise growth restricted by mode).
+func vhGenNums(prev *vhNums, mode int) *vhNums {
 	n := &vhNums{}
 	if prev != nil {
-		n.avail = prev.avail
+		*n = *prev
 		n.version = prev.version + 1
-		n.nPH = prev.nPH
-		n.ownPH = prev.ownPH
 	} else {
 		n.avail = verifrt.U64("avail")
 		verifrt.Assume(n.avail >= 1)
 		n.version = 1
+		mode = vhGrowAll
 	}
-	n.pvTot = verifrt.U64("pvTot")
-	n.pcTot = verifrt.U64("pcTot")
-	verifrt.Assume(n.pvTot <= n.avail)
-	verifrt.Assume(n.pcTot <= n.avail)
-	for i := 0; i < 3; i++ {
-		n.pv[i] = verifrt.U64("pv")
-		n.pc[i] = verifrt.U64("pc")
-		verifrt.Assume(n.pv[i] <= n.pvTot)
-		verifrt.Assume(n.pc[i] <= n.pcTot)
+	if mode == vhGrowAll || mode == vhGrowPV {
+		n.pvTot = verifrt.U64("pvTot")
+		verifrt.Assume(n.pvTot <= n.avail)
+		for i := 0; i < 3; i++ {
+			n.pv[i] = verifrt.U64("pv")
+			verifrt.Assume(n.pv[i] <= n.pvTot)
+			if prev != nil {
+				verifrt.Assume(n.pv[i] >= prev.pv[i])
+			}
+		}
 		if prev != nil {
-			verifrt.Assume(n.pv[i] >= prev.pv[i])
-			verifrt.Assume(n.pc[i] >= prev.pc[i])
+			verifrt.Assume(n.pvTot >= prev.pvTot)
+		}
+		verifrt.Assume(vhSumGE(n.pv, n.pvTot))
+		if verifrt.Thorough() {
+			n.pvTop = verifrt.Choose("pvTop", 2)
+			verifrt.Assume(vhTopOK(n.pv, n.pvTop))
+		} else {
+			// quick: the most voted prevote target is reported as "A" (the state machine
+			// never inspects its identity, only its power); ties with nil go to "A"
+			n.pvTop = 1
+			verifrt.Assume(verifrt.And(n.pv[1] >= n.pv[0], n.pv[1] >= n.pv[2]))
 		}
 	}
-	if prev != nil {
-		verifrt.Assume(n.pvTot >= prev.pvTot)
-		verifrt.Assume(n.pcTot >= prev.pcTot)
+	if mode == vhGrowAll || mode == vhGrowPC {
+		n.pcTot = verifrt.U64("pcTot")
+		verifrt.Assume(n.pcTot <= n.avail)
+		for i := 0; i < 3; i++ {
+			n.pc[i] = verifrt.U64("pc")
+			verifrt.Assume(n.pc[i] <= n.pcTot)
+			if prev != nil {
+				verifrt.Assume(n.pc[i] >= prev.pc[i])
+			}
+		}
+		if prev != nil {
+			verifrt.Assume(n.pcTot >= prev.pcTot)
+		}
+		verifrt.Assume(vhSumGE(n.pc, n.pcTot))
+		n.pcTop = verifrt.Choose("pcTop", vhTopChoices())
+		verifrt.Assume(vhTopOK(n.pc, n.pcTop))
 	}
-	verifrt.Assume(vhSumGE(n.pv, n.pvTot))
-	verifrt.Assume(vhSumGE(n.pc, n.pcTot))
-	n.pvTop = verifrt.Choose("pvTop", 2)
-	n.pcTop = verifrt.Choose("pcTop", vhTopChoices())
-	verifrt.Assume(vhTopOK(n.pv, n.pvTop))
-	verifrt.Assume(vhTopOK(n.pc, n.pcTop))
 	return n
 }
 
@@ -222,6 +245,11 @@ func (s *vhActionStore) log(kind byte, h uint64, r uint32, hash string, sig []by
 		kind: kind, hr: vhHR{h, r}, hash: hash, sig: string(sig), ok: err == nil,
 		emittedBefore: e.released(),
 	})
+	if err == nil && e.crashOnSave {
+		e.crashOnSave = false
+		e.crashed = true
+		panic("vh: process killed right after the action-store save")
+	}
 }
 
 func (s *vhActionStore) SaveProposedHeaderAction(ctx context.Context, ph tmconsensus.ProposedHeader) error {
@@ -307,6 +335,7 @@ type vhEntr struct {
 	hr          vhHR
 	prev        vhHR
 	first       bool // first entrance of a process life (start-up)
+	life        int
 	hasActions  bool
 	actions     chan tmeil.StateMachineRoundAction
 	hc          chan<- struct{}
@@ -375,7 +404,10 @@ type vhRound struct {
 }
 
 const (
-	evView = iota
+	evView = iota // every number may grow, a header may arrive (thorough)
+	evViewPV      // prevote numbers grow
+	evViewPC      // precommit numbers grow
+	evHeader      // one more proposed header, numbers unchanged
 	evTimer
 	evPrevoteAnswer
 	evPrecommitAnswer
@@ -389,7 +421,7 @@ const (
 )
 
 var vhEvNames = [evKinds]string{
-	"view", "timer", "prevote-answer", "precommit-answer", "proposal",
+	"view", "view-prevotes", "view-precommits", "header", "timer", "prevote-answer", "precommit-answer", "proposal",
 	"finalization", "height-committed", "block-data", "jump-ahead", "stale-view",
 }
 
@@ -417,9 +449,10 @@ type vhSM struct {
 
 	// options
 	allowCatchup   bool // the mirror may answer an entrance with a committed header
-	entranceQuiet  bool // entrance responses of rounds after the first carry an empty summary
+	symEntrances   int  // how many more entrance responses carry arbitrary numbers (later ones: no votes yet)
 	entrancePHs    int  // max proposed headers in an entrance response
 	ownPHInRestart bool
+	laterEntrancePHs bool // entrance responses after the first of a life may carry headers too
 
 	// ghost
 	life      int // process life (restarts)
@@ -439,10 +472,11 @@ type vhSM struct {
 	evTimerKind  int
 	evTimerHR    vhHR
 	evJumpTo     vhHR
-	checkedEntr  int
-	checkedReqs  int
-	checkedFins  int
-	checkedEmits int
+	cursor       vhCursor
+	crashed      bool
+	seen         int // coverage bits, see vhSeen*
+	crashOnSave  bool // the process dies right after the next successful action-store save
+	avail        uint64 // available power of the validator set (symbolic, one per environment)
 	oldTimers    []*vhTimerRec
 	// the real handleCatchupEvent never returns once entered (its loop has no exit
 	// besides context cancellation): modelled faithfully as a sticky mode
@@ -462,7 +496,10 @@ func vhNewSM(participating bool) *vhSM {
 	}
 	e.signer = &vhSigner{e: e, key: key}
 	e.rounds = map[vhHR]*vhRound{}
+	e.avail = verifrt.U64("avail")
+	verifrt.Assume(e.avail >= 1)
 	e.entrancePHs = 1
+	e.symEntrances = 1
 	e.evTimerKind = -1
 	// the engine stores the genesis pseudo-finalization at initial height - 1
 	g := e.genesis()
@@ -498,6 +535,7 @@ func (e *vhSM) boot() {
 		e.oldTimers = append(e.oldTimers, e.rt.recs...)
 	}
 	e.rt = &vhTimer{e: e}
+	e.cursor.timers = 0
 	e.viewCh = make(chan tmeil.StateMachineRoundView, 1)
 	e.entranceCh = make(chan tmeil.StateMachineRoundEntrance)
 	e.finReqCh = make(chan tmdriver.FinalizeBlockRequest, 4)
@@ -618,7 +656,7 @@ func (e *vhSM) committedHeader(h uint64) tmconsensus.CommittedHeader {
 // the response: the ghost and the stores are stable.
 func (e *vhSM) onEntrance(re tmeil.StateMachineRoundEntrance) {
 	hr := vhHR{re.H, re.R}
-	en := &vhEntr{hr: hr, prev: e.cur, first: !e.haveCur, hasActions: re.Actions != nil, actions: re.Actions, hc: re.HeightCommitted}
+	en := &vhEntr{hr: hr, prev: e.cur, first: !e.haveCur, life: e.life, hasActions: re.Actions != nil, actions: re.Actions, hc: re.HeightCommitted}
 	if e.haveCur {
 		if hr.h == e.cur.h {
 			// R3: why may the round be left?
@@ -648,13 +686,15 @@ func (e *vhSM) onEntrance(re tmeil.StateMachineRoundEntrance) {
 		resp.CH = ch
 	} else {
 		var n *vhNums
-		if e.entranceQuiet && !en.first {
-			n = &vhNums{avail: 3, version: 1}
+		if e.symEntrances <= 0 {
+			n = &vhNums{avail: e.avail, version: 1}
 		} else {
-			n = vhGenNums(nil)
-			if e.entrancePHs > 0 {
-				n.nPH = verifrt.Choose("entrance-phs", e.entrancePHs+1)
-			}
+			e.symEntrances--
+			n = vhGenNums(&vhNums{avail: e.avail}, vhGrowAll)
+			n.version = 1
+		}
+		if e.entrancePHs > 0 && (en.first || e.laterEntrancePHs) {
+			n.nPH = verifrt.Choose("entrance-phs", e.entrancePHs+1)
 		}
 		if en.first && e.life > 1 && e.ownPHInRestart {
 			n.ownPH = verifrt.Choose("mirror-has-own-ph", 2) == 1
@@ -732,8 +772,10 @@ func (e *vhSM) applicable(kinds []int) []int {
 	for _, k := range kinds {
 		ok := false
 		switch k {
-		case evView, evJumpAhead, evStaleView:
+		case evView, evViewPV, evViewPC, evJumpAhead, evStaleView:
 			ok = live && rd != nil && rd.view != nil
+		case evHeader:
+			ok = live && rd != nil && rd.view != nil && rd.view.nPH < 2
 		case evTimer:
 			ok = e.rlc.StepTimer != nil && len(e.rt.outstanding()) > 0
 		case evPrevoteAnswer:
@@ -809,9 +851,18 @@ func (e *vhSM) deliver(k int) bool {
 	}
 	fromCatchup := e.catchupLoop
 	switch k {
-	case evView:
-		n := vhGenNums(rd.view)
-		if n.nPH < 2 && verifrt.Choose("new-header", 2) == 1 {
+	case evView, evViewPV, evViewPC, evHeader:
+		mode := vhGrowAll
+		switch k {
+		case evViewPV:
+			mode = vhGrowPV
+		case evViewPC:
+			mode = vhGrowPC
+		case evHeader:
+			mode = vhGrowNone
+		}
+		n := vhGenNums(rd.view, mode)
+		if k == evHeader || (k == evView && n.nPH < 2 && verifrt.Choose("new-header", 2) == 1) {
 			n.nPH++
 		}
 		rd.view = n
@@ -824,17 +875,31 @@ func (e *vhSM) deliver(k int) bool {
 		} else {
 			hr.r++
 		}
-		n := vhGenNums(nil)
-		n.version = 9
+		n := &vhNums{avail: rd.view.avail, pvTot: rd.view.avail, pcTot: rd.view.avail, version: 9}
+		n.pv[0], n.pc[0] = n.avail, n.avail // would be a nil quorum if it were taken for the current round
 		e.viewCh <- tmeil.StateMachineRoundView{VRV: e.vrv(hr, n)}
 	case evJumpAhead:
-		to := vhHR{e.cur.h, e.cur.r + 1 + uint32(verifrt.Choose("jump-by", 2))}
+		by := uint32(2)
+		if verifrt.Thorough() {
+			by = 1 + uint32(verifrt.Choose("jump-by", 2))
+		}
+		to := vhHR{e.cur.h, e.cur.r + by}
 		e.evJumpTo = to
 		j := e.vrv(to, &vhNums{avail: rd.view.avail, version: 1})
 		e.viewCh <- tmeil.StateMachineRoundView{JumpAheadRoundView: &j}
 	case evTimer:
-		out := e.rt.outstanding()
-		t := out[len(out)-1]
+		var t *vhTimerRec
+		for _, o := range e.rt.outstanding() {
+			var ch <-chan struct{} = o.ch
+			if ch == e.rlc.StepTimer {
+				t = o
+			}
+		}
+		if t == nil {
+			// the lifecycle waits on a channel that is not an outstanding timer: C12's finding
+			e.afterEvent()
+			return true
+		}
 		e.evTimerKind, e.evTimerHR = t.kind, t.hr
 		t.elapsed = true
 		close(t.ch)
@@ -856,7 +921,8 @@ func (e *vhSM) deliver(k int) bool {
 		default:
 			// a second answer while the first is still unread: the real manager would block
 		}
-		if r.at != e.cur || (k == evPrevoteAnswer && e.rlc.PrevoteHashCh == nil) || (k == evPrecommitAnswer && e.rlc.PrecommitHashCh == nil) {
+		if (k == evPrevoteAnswer && (e.rlc.PrevoteHashCh == nil || len(e.rlc.PrevoteHashCh) == 0)) ||
+			(k == evPrecommitAnswer && (e.rlc.PrecommitHashCh == nil || len(e.rlc.PrecommitHashCh) == 0)) {
 			// late or duplicate answer: nobody listens; no source of the select is ready
 			e.afterEvent()
 			return true
@@ -875,18 +941,29 @@ func (e *vhSM) deliver(k int) bool {
 			Validators:   e.vs.Validators,
 			AppStateHash: []byte("app"),
 		}
-		f.req.Resp <- resp
-		if f.at.h != e.cur.h {
+		select {
+		case f.req.Resp <- resp:
+		default:
+		}
+		if e.rlc.FinalizeRespCh == nil || len(e.rlc.FinalizeRespCh) == 0 {
+			// response to a request of a round that is gone: nobody listens
 			e.afterEvent()
 			return true
 		}
 	case evHeightCommitted:
 		en := e.entrances[len(e.entrances)-1]
 		close(en.hc)
+		if (chan<- struct{})(e.rlc.HeightCommitted) != en.hc {
+			e.afterEvent()
+			return true
+		}
 	case evBlockData:
-		id := "d" + vhTargets[1+verifrt.Choose("arrived-data", 2)]
+		id := "dA"
 		hr := e.cur
-		if verifrt.Choose("arrival-other-round", 2) == 1 {
+		switch verifrt.Choose("arrived-data", 3) {
+		case 1:
+			id = "dB"
+		case 2:
 			hr.r++
 		}
 		e.bdaCh <- tmelink.BlockDataArrival{Height: hr.h, Round: hr.r, ID: id}
@@ -1023,4 +1100,89 @@ func (e *vhSM) observeState(label string) {
 	verifrt.Observe(label, e.rlc.H, uint64(e.rlc.R), uint64(e.rlc.S), uint64(len(e.entrances)),
 		uint64(len(e.reqs)), uint64(len(e.finReqs)), uint64(len(e.signs)), uint64(len(e.emits)),
 		uint64(len(e.rt.recs)), uint64(len(e.rt.outstanding())))
+}
+
+// ---- coverage bits and the common driver
+
+const (
+	vhSeenNextRound = 1 << iota
+	vhSeenNextHeight
+	vhSeenReplaying
+	vhSeenCommitWait
+	vhSeenAwaitingFinalization
+	vhSeenPrevoteDelay
+	vhSeenPrecommitDelay
+	vhSeenAwaitingPrevotes
+	vhSeenAwaitingPrecommits
+	vhSeenStopped
+	vhSeenVoteReleased
+	vhSeenProposalReleased
+)
+
+func (e *vhSM) note(h0 uint64, r0 uint32) {
+	switch {
+	case !e.alive:
+		e.seen |= vhSeenStopped
+	case e.catchupLoop || e.rlc.IsReplaying():
+		e.seen |= vhSeenReplaying
+	default:
+		if e.cur.h != h0 {
+			e.seen |= vhSeenNextHeight
+		} else if e.cur.r != r0 {
+			e.seen |= vhSeenNextRound
+		}
+		switch e.rlc.S {
+		case tsi.StepCommitWait:
+			e.seen |= vhSeenCommitWait
+		case tsi.StepAwaitingFinalization:
+			e.seen |= vhSeenAwaitingFinalization
+		case tsi.StepPrevoteDelay:
+			e.seen |= vhSeenPrevoteDelay
+		case tsi.StepPrecommitDelay:
+			e.seen |= vhSeenPrecommitDelay
+		case tsi.StepAwaitingPrevotes:
+			e.seen |= vhSeenAwaitingPrevotes
+		case tsi.StepAwaitingPrecommits:
+			e.seen |= vhSeenAwaitingPrecommits
+		}
+	}
+	for _, em := range e.emits {
+		if em.kind == 'P' {
+			e.seen |= vhSeenProposalReleased
+		} else {
+			e.seen |= vhSeenVoteReleased
+		}
+	}
+}
+
+// run delivers up to n events chosen among kinds, checking the oracle groups after each.
+func (e *vhSM) run(groups int, kinds []int, n int) {
+	for i := 0; i < n; i++ {
+		h0, r0 := e.cur.h, e.cur.r
+		ok := e.step(kinds)
+		e.check(groups)
+		e.note(h0, r0)
+		if !ok {
+			return
+		}
+		e.observeState("after-event")
+	}
+}
+
+func vhOpts() {
+	verifrt.Summarize("ByzantineThresholds")
+	verifrt.Summarize("SMQuietSendGuardTimers")
+}
+
+var vhAllEvents = []int{
+	evViewPV, evViewPC, evHeader, evTimer, evPrevoteAnswer, evPrecommitAnswer, evProposal,
+	evFinalization, evHeightCommitted, evBlockData, evJumpAhead, evStaleView,
+}
+
+// vhEvents: thorough adds the general view update (all numbers grow, a header may arrive).
+func vhEvents() []int {
+	if verifrt.Thorough() {
+		return append([]int{evView}, vhAllEvents...)
+	}
+	return vhAllEvents
 }
